@@ -110,6 +110,15 @@ def _z3(text, timeout=60):
     return v, out
 
 
+def COVERS_STATIC():
+    import sys
+
+    return [getattr(getattr(sys.modules[f"cardillo.solver.{mod}"], cls), meth) for mod, cls, meth, _ in GRIDS.values()]
+
+
+COVERS_BOUNDED = [save_solution, load_solution, Solution.save]
+
+
 @static("C20", "time-grid")
 def s_grid(tier):
     import sys
